@@ -377,6 +377,7 @@ def r12_8(ctx):
         return outs, keys
 
     named_operands_resolve_to_their_node(ctx)
+    nodes_are_never_copied(ctx)
     for member, dicts in (("GLOBAL", ["read_ops"]), ("LOCAL", ["read_ops"]), ("LET", ["read_ops"]), ("EXEC", ["exec_ops"])):
         ctx.need(member in pt, f"PureType.{member} missing")
         outs, keys = run("add_pure", lambda: AObj("Pure", {"type": EnumV("PureType", member, pt[member])}, label="p", opaque=True))
@@ -397,6 +398,29 @@ def r12_8(ctx):
             got = [o.value if o.kind != "raise" else "RAISE" for o in outs]
             exp = [True] if method == "has_op" else ["node"]
             ctx.check(f"{method} finds an entry of {d} by its name", got == exp, str(exp), str(got), fn_where(idx, fi))
+
+
+def nodes_are_never_copied(ctx):
+    """an IR node is its identity: the declaration-once counters, the read counter that decides raw use / DUP(), the unique name.  A copy of a
+    node is a second node for the same C variable (declared twice, or consumed raw twice).  Only type objects are copied."""
+    idx = get_index(ctx.env)
+    bad = []
+    n = 0
+    for q, fi in sorted(idx.funcs.items()):
+        if ".Tests" in fi.module:
+            continue
+        for c in ast.walk(fi.node):
+            if not (isinstance(c, ast.Call) and call_tail(c) in ("copy", "deepcopy") and c.args):
+                continue
+            if isinstance(c.func, ast.Attribute) and U(c.func.value) not in ("copy",):
+                continue  # a method named copy of some object (dict.copy, list.copy)
+            n += 1
+            arg = U(c.args[0])
+            params = {a.arg: U(a.annotation) if a.annotation is not None else "" for a in fi.node.args.args}
+            type_like = "type" in arg.lower() or params.get(arg, "") in ("ValueType",) or fi.module.endswith("ValueType") and params.get(arg, "x") in ("ValueType", "")
+            if not type_like:
+                bad.append(f"{q}:{c.lineno} {U(c)[:50]}")
+    ctx.check("copy / deepcopy is applied to type objects only, never to an IR node", not bad, "nodes are shared by identity", "; ".join(bad[:3]) or f"{n} copies, all of type objects", "rzilcompiler/")
 
 
 def named_operands_resolve_to_their_node(ctx):
